@@ -15,6 +15,8 @@ import (
 	"time"
 
 	"github.com/magefile/mage/mg"
+
+	faketime "verif.test/unitrun/faketime"
 )
 
 type MyString string
@@ -151,6 +153,8 @@ func fromVal(v val) interface{} {
 		return float64(1.5)
 	case "int64":
 		return int64(7)
+	case "fakedur":
+		return faketime.Duration(7) // a type of another package named "time": prints as time.Duration
 	case "mystring":
 		b, _ := base64.StdEncoding.DecodeString(v.B)
 		return MyString(b)
